@@ -30,13 +30,16 @@ var R *mc.Report
 var paths = []string{"ScalarMult", "MultiScalarMult([s],[P])", "DoubleScalarMultBasepointVartime(0,s,P)", "MultiScalarMultVartime([s],[P])", "scalarMultVartimeGLV (hook)"}
 
 // runMul: s*P through one path; aliased = receiver is the point operand itself.
-func runMul(s *big.Int, p ref.Pt, z *big.Int, path int, aliased bool) string {
+func runMul(s *big.Int, p ref.Pt, z *big.Int, path int, aliased bool, hist int) string {
 	want := p.Mul(s)
 	if s.Sign() == 0 {
 		want = ref.Infinity()
 	}
 	sc := lib.MkSC(s)
-	pt := lib.MkPTRep(p, z)
+	if hist < 0 {
+		hist = int(mc.HS(s.String(), lib.PtHex(p), fmt.Sprint(path, aliased)) % 4)
+	}
+	pt := operandWithHistory(p, z, hist)
 	raw := lib.Raw(pt)
 	v := pt
 	if !aliased {
@@ -73,6 +76,31 @@ func runMul(s *big.Int, p ref.Pt, z *big.Int, path int, aliased bool) string {
 		return "scalar operand modified"
 	}
 	return ""
+}
+
+// operandWithHistory: the point operand as an OBJECT with a past. s*P is a function of the value P, not of what the
+// object holding P did before: (0) a fresh object; or an object that has already served as the operand of a
+// multiplication while it held another point, and was then given the value P by (1) Set, (2) decoding an encoding of P
+// into it, (3) an in-place addition.
+func operandWithHistory(p ref.Pt, z *big.Int, h int) *Point {
+	if h == 0 {
+		return lib.MkPTRep(p, z)
+	}
+	pt := lib.MkPTRep(ref.G().Mul(big.NewInt(7)), big.NewInt(5))
+	secp256k1.NewIdentityPoint().ScalarMult(lib.MkSC(big.NewInt(0x1234567)), pt)
+	secp256k1.NewIdentityPoint().DoubleScalarMultBasepointVartime(lib.MkSC(big.NewInt(3)), lib.MkSC(big.NewInt(0x7654321)), pt)
+	switch h {
+	case 1:
+		pt.Set(lib.MkPTRep(p, z))
+	case 2:
+		if _, err := pt.SetBytes(p.Uncompressed()); err != nil {
+			panic("harness: reference encoding rejected: " + err.Error())
+		}
+	case 3:
+		pt.Set(lib.MkPTRep(p.Add(ref.G().Neg()), z))
+		pt.Add(pt, secp256k1.NewGeneratorPoint())
+	}
+	return pt
 }
 
 func limbsBig(l [4]uint64) *big.Int {
@@ -129,7 +157,11 @@ func runSplit(s *big.Int) (m string, cls string) {
 
 func register() {
 	mc.Register("mul", func(d mc.D) string {
-		return runMul(d.Big("s"), lib.HexPt(d.S("p")), d.Big("z"), d.I("path"), d.Bool("aliased"))
+		hist := -1
+		if _, ok := d["hist"]; ok {
+			hist = d.I("hist")
+		}
+		return runMul(d.Big("s"), lib.HexPt(d.S("p")), d.Big("z"), d.I("path"), d.Bool("aliased"), hist)
 	})
 	mc.Register("split", func(d mc.D) string { m, _ := runSplit(d.Big("s")); return m })
 }
@@ -239,7 +271,7 @@ func main() {
 					continue
 				}
 				R.T(1)
-				if m := mc.Safe(func() string { return runMul(s.V, p.P, z, path, al) }); m != "" {
+				if m := mc.Safe(func() string { return runMul(s.V, p.P, z, path, al, -1) }); m != "" {
 					R.Mismatch(fmt.Sprintf("mul/%s/aliased=%v", paths[path], al), "mul", m,
 						mc.D{"s": mc.HexBig(s.V), "p": lib.PtHex(p.P), "z": fmt.Sprintf("%x", z), "path": path, "path_name": paths[path], "aliased": al, "scalar_label": s.Label, "point_label": p.Label})
 				}
@@ -251,6 +283,25 @@ func main() {
 			R.NT(h)
 		}
 	})
+	// representatives steered at the multiplications by the small curve constant (mc.SmallMulOverflowZ): the table of
+	// multiples starts with a doubling of P (b3*Z^2) and additions of P (b3*Z1*Z2, b3*(x1+x2)*Z1*Z2)
+	{
+		g3 := ref.G().Mul(big.NewInt(3))
+		szs := mc.SmallMulOverflowZ(g3.X, g3.Double().X)
+		R.Class("representatives steered at the multiply-by-constant wraps", int64(len(szs)))
+		ss := []*big.Int{big.NewInt(2), big.NewInt(0x7654321), new(big.Int).Sub(ref.N, big.NewInt(3))}
+		mc.Par(len(szs), func(i int) {
+			for _, s := range ss {
+				for path := range paths {
+					R.T(1)
+					if m := mc.Safe(func() string { return runMul(s, g3, szs[i].V, path, i%2 == 1, 0) }); m != "" {
+						R.Mismatch(fmt.Sprintf("mul/%s/steered representative", paths[path]), "mul", m,
+							mc.D{"s": mc.HexBig(s), "p": lib.PtHex(g3), "z": fmt.Sprintf("%x", szs[i].V), "path": path, "path_name": paths[path], "aliased": i%2 == 1, "hist": 0, "z_label": szs[i].Label})
+					}
+				}
+			}
+		})
+	}
 	// s*P is a function of (s, P) alone: with the process-wide default entropy source (crypto/rand.Reader) stuck at
 	// a constant - all zero, all ones, the bytes of p (zero after reduction) - every path still returns s*P
 	// (sequential section: the reader is process-global)
@@ -261,7 +312,7 @@ func main() {
 			for path := range paths {
 				R.T(1)
 				p := pts[(si+path)%len(pts)]
-				if m := mc.Safe(func() string { return runMul(s.V, p.P, zs[path%len(zs)], path, path%2 == 1) }); m != "" {
+				if m := mc.Safe(func() string { return runMul(s.V, p.P, zs[path%len(zs)], path, path%2 == 1, -1) }); m != "" {
 					R.Fail("mul/default entropy source stuck at a constant", "misc", map[string]any{"crypto_rand_reader": src, "s": mc.HexBig(s.V), "point": p.Label, "path": paths[path], "what": m}, nil)
 				}
 			}
